@@ -211,7 +211,7 @@ def validate_file(path, props, module="TraceAbs"):
         if '"ACCEPTED"' in out and rc == 0:
             res["accepted_runs"] += sum(max(1, len(u[1])) for u in units[start:])
             break
-        m = re.search(r'<<"REJECTED", (\d+), "([a-z]+)">>', out)
+        m = re.search(r'<<"REJECTED", (\d+), "([a-z_]+)">>', out)
         if not m:
             raise ToolError("TLC failed on %s:\n%s" % (path, out[-3000:]))
         line = int(m.group(1))
@@ -250,7 +250,7 @@ def diagnose(run, props, module):
         os.unlink(tmp.name)
         if '"ACCEPTED"' in out and rc == 0:
             break
-        m = re.search(r'<<"REJECTED", (\d+), "([a-z]+)">>', out)
+        m = re.search(r'<<"REJECTED", (\d+), "([a-z_]+)">>', out)
         if not m:
             raise ToolError("TLC failed while diagnosing:\n%s" % out[-3000:])
         line = int(m.group(1))
